@@ -229,6 +229,7 @@ def impl(case):
         res["flipped"] = {
             "untracked": [i for i, x in enumerate(rule.comb_class.extra_parameters) if x not in vals],
             "merged": len(set(vals)) < len(vals),
+            "conflict_levels": _merge_conflict_levels(rule.children[0], d, case["N"]),
         }
     res["truth"] = [_canon(_U().true_terms(rule.comb_class, n)) for n in range(case["N"] + 1)]
     if case["form"] == 3:
@@ -269,6 +270,27 @@ def _quot_shape(case, truth):
             "merged": len(set(vals)) < len(vals)}
 
 
+def _merge_conflict_levels(parent, d, N):
+    """The sizes n <= N at which the TRUE enumeration of the rule's parent has a term whose statistics that the
+    flipped child's dictionary d merges onto ONE child statistic take DIFFERENT values: exactly the terms on which the
+    recorded behaviour "reverse-wrt-child-with-merged-statistics-asserts" is defined.  On a consistent merge (the
+    merged statistics agree on every parent term) the list is empty and an AssertionError is NOT that finding."""
+    groups = {}
+    for pos, pv in enumerate(parent.extra_parameters):
+        if pv in d:
+            groups.setdefault(d[pv], []).append(pos)
+    groups = [g for g in groups.values() if len(g) > 1]
+    if not groups:
+        return []
+    out = []
+    for n in range(N + 1):
+        for par, v in _U().true_terms(parent, n).items():
+            if v and any(len({par[i] for i in g}) > 1 for g in groups):
+                out.append(n)
+                break
+    return out
+
+
 # ------------------------------------------------------------------ oracle
 TAG_UNTRACKED = "[complement: statistic(s) of the flipped child that no parent statistic maps to are reported as 0]"
 TAG_MERGED = "[complement: AssertionError in DisjointUnion.param_map, several parent statistics are mapped onto one statistic of the flipped child]"
@@ -303,8 +325,12 @@ def oracle(case, res):
     as_zeroed = bool(fl["untracked"]) and all(lv == zeroed[n] for n, lv in enumerate(levels))
     if err != []:
         why = "get_terms raised " + res.get("raised", str(err))
+        # the recorded behaviour, and nothing wider: the assertion is raised at the FIRST size at which the true
+        # parent has a term whose merged statistics differ (on consistent merges Complement must not assert)
+        conflicts = fl.get("conflict_levels", [])
         if (err == ERR["AssertionError"] and fl["merged"] and (bad is None or as_zeroed)
-                and res.get("raised_in") == ["disjoint.py:get_terms", "disjoint.py:param_map"]):
+                and res.get("raised_in") == ["disjoint.py:get_terms", "disjoint.py:param_map"]
+                and conflicts and conflicts[0] == len(levels)):
             why += " " + TAG_MERGED
         return why
     if bad is not None:
